@@ -1,4 +1,13 @@
-semi=[("NIST384p","n"),("NIST521p","n"),("BRAINPOOLP384r1","p"),("BRAINPOOLP512r1","p")]
+"""OFFLINE developer tool: writes lean/Props/Uncond.lean (input of mkuncond_split.py) from $PRIMECERT_WORK/status.json (written by
+mklean.py).  Run in /verif/lean:  PRIMECERT_WORK=… python3 ../harness/tools/primecerts/mkuncond.py"""
+import os, json
+_status = json.load(open(os.path.join(os.environ.get("PRIMECERT_WORK", "/tmp/primecerts"), "status.json")))
+# curves with exactly one uncertified number keep that single hypothesis; with all 34 certified this list is empty
+semi=[tuple(k.split(".")) for k in _status if not _status[k]]
+HYPS = " ".join("(h%d : Nat.Prime Gen.curve_%s.%s)" % (i + 1, n, k) for i, (n, k) in enumerate(semi))
+HARGS = " ".join("h%d" % (i + 1) for i in range(len(semi)))
+HNAME = {(n, k): "h%d" % (i + 1) for i, (n, k) in enumerate(semi)}
+NU = 17 - len(semi)
 allnames=["NIST192p","NIST224p","NIST256p","NIST384p","NIST521p","SECP256k1","BRAINPOOLP160r1","BRAINPOOLP192r1","BRAINPOOLP224r1","BRAINPOOLP256r1","BRAINPOOLP320r1","BRAINPOOLP384r1","BRAINPOOLP512r1","SECP112r1","SECP112r2","SECP128r1","SECP160r1"]
 semid=dict(semi)
 out='''import Props.NamedPrimes
@@ -11,13 +20,11 @@ import Props.C19g
 /-!
 # Uncond — the headline theorems of C01–C03, C05, C08–C10, C13, C14, C18, C19 on the named curves with NO primality hypothesis
 
-`NamedPrimes.unconditionalCurves` = the 13 curves of the generated table whose field prime `p` AND group order `n` carry a
+`NamedPrimes.unconditionalCurves` = the NUNCOND curves of the generated table whose field prime `p` AND group order `n` carry a
 kernel-checked Pocklington certificate (`Proofs/NamedPrimeCerts*.lean`); the order of the base point is checked by kernel
 evaluation (`Proofs/NamedChecks.lean`).  So for these curves nothing about the curve is assumed any more; where a theorem
 needs the SEC 2 fact `#E(𝔽_p) = n` (recovery, the ⇒ half of point acceptance) that single hypothesis stays.
-For the 4 curves with one uncertified number (NIST384p.n, NIST521p.n, BRAINPOOLP384r1.p, BRAINPOOLP512r1.p) the same
-statements are given with exactly that one hypothesis (`…_<curve>`), and the table-wide loader theorems of C10 with
-exactly those four.
+SEMIDOC
 -/
 namespace Uncond
 open Named NamedPrimes Ecdsa GroupInterface Jac
@@ -30,17 +37,16 @@ theorem primeN (hr : r ∈ unconditionalCurves) : r.n.Prime := (unconditional_su
 /-- `ZMod p` is a field: from the certificate -/
 theorem factP (hr : r ∈ unconditionalCurves) : Fact r.p.Prime := ⟨primeP hr⟩
 
-/-- the four remaining primality hypotheses give primality of all 34 numbers of the table -/
-theorem all_primes_given (h1 : Nat.Prime Gen.curve_NIST384p.n) (h2 : Nat.Prime Gen.curve_NIST521p.n)
-    (h3 : Nat.Prime Gen.curve_BRAINPOOLP384r1.p) (h4 : Nat.Prime Gen.curve_BRAINPOOLP512r1.p) :
+/-- primality of all 34 numbers of the table (from the certificates; any uncertified number is a hypothesis here) -/
+theorem all_primes HYPS :
     ∀ c ∈ Gen.curveTable, c.p.Prime ∧ c.n.Prime := by
   intro c hc
   simp only [Gen.curveTable, List.mem_cons, List.mem_nil_iff, or_false] at hc
   rcases hc with %s
 ''' % " | ".join(["rfl"]*17)
 for n in allnames:
-    pp = "h3" if n=="BRAINPOOLP384r1" else "h4" if n=="BRAINPOOLP512r1" else "prime_p_"+n
-    nn = "h1" if n=="NIST384p" else "h2" if n=="NIST521p" else "prime_n_"+n
+    pp = HNAME.get((n, "p"), "prime_p_"+n)
+    nn = HNAME.get((n, "n"), "prime_n_"+n)
     out+="  · exact ⟨%s, %s⟩\n"%(pp,nn)
 out+='''
 /-! ### C02 -/
@@ -201,10 +207,9 @@ theorem from_string_accepts_subgroup_points (hr : r ∈ unconditionalCurves) :
   intro s x y henc hx hy hsub
   exact C08.from_string_accepts_subgroup_points r (mem_table hr) (primeN hr) s x y henc hx hy hsub
 
-/-- all six key loaders raise only documented errors — a table-wide statement, so the four uncertified numbers appear as
-its only hypotheses -/
-theorem all_loaders_total (h1 : Nat.Prime Gen.curve_NIST384p.n) (h2 : Nat.Prime Gen.curve_NIST521p.n)
-    (h3 : Nat.Prime Gen.curve_BRAINPOOLP384r1.p) (h4 : Nat.Prime Gen.curve_BRAINPOOLP512r1.p) :
+/-- all six key loaders raise only documented errors — a table-wide statement (any uncertified number of the table would
+appear as a hypothesis; with all 34 certified there is none) -/
+theorem all_loaders_total HYPS :
     C10.ExtOK KeysWire.modelExt ∧ ∀ bs : Bytes,
       (∀ e, VK.fromDer KeysWire.modelExt bs = .error e → Documented e) ∧
       (∀ e, VK.fromPem KeysWire.modelExt bs = .error e → Documented e) ∧
@@ -212,16 +217,15 @@ theorem all_loaders_total (h1 : Nat.Prime Gen.curve_NIST384p.n) (h2 : Nat.Prime 
       (∀ e, SK.fromPem KeysWire.modelExt bs = .error e → Documented e) ∧
       (∀ c ∈ Gen.curveTable, ∀ v e, VK.fromString KeysWire.modelExt c bs v = .error e → e = .malformedPoint) ∧
       (∀ c ∈ Gen.curveTable, ∀ e, SK.fromString KeysWire.modelExt c bs = .error e → e = .malformedPoint) :=
-  C10.all_loaders_total_model (all_primes_given h1 h2 h3 h4)
+  C10.all_loaders_total_model (all_primes HARGS)
 
 /-- … and the ECDH loaders are those key loaders -/
-theorem ecdh_loaders_total {Pt Ent : Type} (h1 : Nat.Prime Gen.curve_NIST384p.n) (h2 : Nat.Prime Gen.curve_NIST521p.n)
-    (h3 : Nat.Prime Gen.curve_BRAINPOOLP384r1.p) (h4 : Nat.Prime Gen.curve_BRAINPOOLP512r1.p)
+theorem ecdh_loaders_total {Pt Ent : Type} HYPS
     (mkPt : Curve → Nat → Nat → Pt) (mul : Pt → Int → Res Pt) (isInf : Pt → Bool) (xOf : Pt → Res Int)
     (generate : Curve → Ent → Res (Ecdh.SKey Curve Pt)) :
     LoadersAreKeys KeysWire.modelExt mkPt (ecdhEnv KeysWire.modelExt mkPt mul isInf xOf generate) ∧
       C10.ExtOK KeysWire.modelExt :=
-  C10.ecdh_loaders_total_model (all_primes_given h1 h2 h3 h4) mkPt mul isInf xOf generate
+  C10.ecdh_loaders_total_model (all_primes HARGS) mkPt mul isInf xOf generate
 
 end
 
@@ -276,7 +280,7 @@ SEMI
 end Uncond
 '''
 
-semi_txt = "/-! ### the 4 curves with exactly one uncertified number: the same statements with that single hypothesis -/\n\n"
+semi_txt = ("/-! ### the %d curves with exactly one uncertified number: the same statements with that single hypothesis -/\n\n" % len(semi)) if semi else ""
 for n,kind in semi:
     hyp = "(h : Nat.Prime Gen.curve_%s.%s)" % (n, kind)
     fp = "⟨h⟩" if kind == "p" else "⟨prime_p_%s⟩" % n
@@ -317,4 +321,7 @@ theorem round_trips_{n} {hyp} (d : Nat) (h1 : 1 ≤ d) (h2 : d < {R}.n) :
 
 """
 out = out.replace("SEMI\n", semi_txt)
+out = out.replace("HYPS", HYPS).replace("HARGS", HARGS).replace("NUNCOND", str(NU))
+out = out.replace("(all_primes )", "all_primes").replace("all_primes  :", "all_primes :").replace("all_loaders_total  :", "all_loaders_total :").replace("{Pt Ent : Type} \n", "{Pt Ent : Type}\n")
+out = out.replace("SEMIDOC\n", ("For the %d curves with one uncertified number (%s) the same statements are given with exactly that one\nhypothesis (`…_<curve>`), and the table-wide loader theorems of C10 with exactly those.\n" % (len(semi), ", ".join("%s.%s" % t for t in semi))) if semi else "All 34 numbers are certified, so this is the whole table (`NamedPrimes.table_unconditional`) and the table-wide loader\ntheorems of C10 carry no hypothesis either.\n")
 open('Props/Uncond.lean','w').write(out)
